@@ -1,23 +1,33 @@
 //! C05 / C13 / C14: binds spec/Client.tla to the REAL `watchtower-client` binary (crate watchtower-plugin).
 //!
 //! `client_rig run <scenarios.ndjson> <outdir> --client <bin> [--jobs N]`
-//!     every line of the scenario file is one script (see `Scenario`); each is executed against a fresh client process
+//!     every line of the scenario file is one script {"name", "towers":["t1",..], "cfg":{"max_retry","auto_retry",
+//!     "max_interval"}, "steps":[{"op":..}]} with the steps register / mode / queue / down / up / notify / await / release
+//!     / wait_held / wait_req / wait_state / sleep / retry / abandon / probe / kill / kill_on / wait_dead / restart (see
+//!     `Exec::run_step`; lib/clientlib.py builds them); each is executed against a fresh client process
 //!     (CLN plugin stdio protocol, messages framed by "\n\n") and a set of scripted FAKE TOWERS (HTTP/1.1 servers on
 //!     127.0.0.1, one key each, able to sign valid receipts exactly as the real tower does).  One ndjson trace per
 //!     scenario is written to <outdir>/<name>.ndjson for spec/Trace_Client.tla; the client's stderr and log
 //!     notifications go to <outdir>/<name>.stderr / .log.  A one-line JSON summary is printed on stdout.
 //!
-//! Trace events (field "ev"); "ts" is milliseconds since the start of the scenario, "i" the global sequence number:
+//! Trace events (field "ev"); "ts" is milliseconds since the start of the scenario, "i" the global sequence number.  An
+//! event is written BEFORE the rig does what it announces (call, rep, env down, kill holds the trace lock) or right
+//! after it observed it (req, ret, obs), so that the order of the lines is an order in which things can have happened:
+//!   start    first line: name and script of the scenario
 //!   boot     client process started and initialised (also after a restart); cfg = retry options (seconds)
-//!   call     the rig wrote a request to the client's stdin      {id, m, t?, l?}
-//!   ret      the client answered it                              {id, m, res, msg}
-//!   noret    no answer within the time limit / the process died  {id, m, why}
-//!   req      a fake tower received a request (before answering)  {seq, t, ep, l?, beh, cls:[reply classes]}
-//!   rep      the fake tower is about to write its answer         {seq, t, slots?, reg?}
-//!   env      tower switched up / down                            {t, up}
-//!   obs      the observable state: db (rows of the SQLite file, second read-only connection) and mem (listtowers)
-//!   abort    a panic message appeared on the client's stderr     {site, msg}
+//!   call     the rig is about to write a request to the client's stdin   {id, m, t?, l?}
+//!   ret      the client answered it                                       {id, m, res, msg}
+//!   noret    no answer: why = timeout | panic (a handler aborted meanwhile) | dead (process gone)
+//!   req      a fake tower received a request (before answering)           {seq, t, ep, l, beh, cls}
+//!   rep      the fake tower is about to write its answer                  {seq, t, ep, l, cls:[class read off the
+//!            bytes sent], slots, start, expiry}
+//!   env      tower switched up / down {t, up};  mode: what a tower is set to answer from now on {t, ep, cls, queued}
+//!   obs      the observable state: db (rows of the SQLite file, second read-only connection, one read transaction)
+//!            and mem (listtowers; memok = it answered); same = the state was read again and has not changed
+//!   probe    listtowers + gettowerinfo of every tower: answered?
+//!   abort    a panic message appeared on the client's stderr              {site, msg}
 //!   kill     SIGKILL delivered
+//!   waited / note / skipped / other_req   bookkeeping of the script (not judged)
 //!   end      end of the scenario; inconclusive = timing assumptions that could not be met
 //! Names: towers t1.., locators l1.. (anything unknown is reported with its hex value prefixed by '?').
 
@@ -314,6 +324,16 @@ fn read_http_request(stream: &mut TcpStream) -> Option<(String, String, Vec<u8>)
 }
 
 /// Abstract reply classes a behaviour may be read as by a conforming client (what Client.tla calls the reply class).
+/// what a tower set to `beh` counts as for the timing obligations ("mode" events): a tower that holds its answers is
+/// not well-behaved
+fn mode_classes(ep: &str, beh: &Beh) -> Vec<String> {
+    if jbool(&beh.0, "hold", false) {
+        vec!["hold".to_owned()]
+    } else {
+        classes_of(ep, beh)
+    }
+}
+
 fn classes_of(ep: &str, beh: &Beh) -> Vec<String> {
     if let Some(c) = beh.0.get("cls").and_then(|c| c.as_array()) {
         return c.iter().map(|x| x.as_str().unwrap_or("").to_owned()).collect();
@@ -452,10 +472,13 @@ impl Tower {
             let mut st = self.st.lock().unwrap();
             st.nreq += 1;
             st.inflight += 1;
-            let beh = st
-                .queue
-                .get_mut(ep)
-                .and_then(|q| q.pop_front())
+            let popped = st.queue.get_mut(ep).and_then(|q| q.pop_front());
+            if popped.is_some() {
+                let left = st.queue.get(ep).map(|q| q.len()).unwrap_or(0);
+                let dflt = st.mode.get(ep).cloned().unwrap_or(Beh(json!({"k":"accept"})));
+                sh.trace.emit(json!({"ev":"mode","t":self.name,"ep":ep,"cls":mode_classes(ep, &dflt),"queued":left}));
+            }
+            let beh = popped
                 .or_else(|| st.mode.get(ep).cloned())
                 .unwrap_or(Beh(json!({"k":"accept"})));
             let kill = match st.kill_on.clone() {
@@ -1286,7 +1309,11 @@ impl Exec {
             "register" => {
                 let tw = sh.tower(jstr(step, "t"));
                 if let Some(b) = step.get("beh") {
-                    tw.st.lock().unwrap().queue.entry("reg".into()).or_default().push_back(Beh(b.clone()));
+                    let mut st = tw.st.lock().unwrap();
+                    let dflt = st.mode.get("reg").cloned().unwrap_or(Beh(json!({"k":"accept"})));
+                    let queued = st.queue.get("reg").map(|q| q.len()).unwrap_or(0) + 1;
+                    sh.trace.emit(json!({"ev":"mode","t":tw.name,"ep":"reg","cls":mode_classes("reg", &dflt),"queued":queued}));
+                    st.queue.entry("reg".into()).or_default().push_back(Beh(b.clone()));
                 }
                 let id_hex = tw.id.to_string();
                 self.call_logged(
@@ -1299,15 +1326,21 @@ impl Exec {
             "mode" => {
                 let tw = sh.tower(jstr(step, "t"));
                 let b = Beh(step["beh"].clone());
-                sh.trace.emit(json!({"ev":"mode","t":tw.name,"ep":jstr(step, "ep"),"cls":classes_of(jstr(step, "ep"), &b),"queued":0}));
-                tw.st.lock().unwrap().mode.insert(jstr(step, "ep").to_owned(), b);
+                let ep = jstr(step, "ep").to_owned();
+                let mut st = tw.st.lock().unwrap();
+                let queued = st.queue.get(&ep).map(|q| q.len()).unwrap_or(0);
+                sh.trace.emit(json!({"ev":"mode","t":tw.name,"ep":ep,"cls":mode_classes(&ep, &b),"queued":queued}));
+                st.mode.insert(ep, b);
             }
             "queue" => {
                 let tw = sh.tower(jstr(step, "t"));
                 let behs = step["behs"].as_array().cloned().unwrap_or_default();
-                sh.trace.emit(json!({"ev":"mode","t":tw.name,"ep":jstr(step, "ep"),"cls":["queue"],"queued":behs.len()}));
+                let ep = jstr(step, "ep").to_owned();
                 let mut st = tw.st.lock().unwrap();
-                let q = st.queue.entry(jstr(step, "ep").to_owned()).or_default();
+                let dflt = st.mode.get(&ep).cloned().unwrap_or(Beh(json!({"k":"accept"})));
+                let queued = st.queue.get(&ep).map(|q| q.len()).unwrap_or(0) + behs.len();
+                sh.trace.emit(json!({"ev":"mode","t":tw.name,"ep":ep,"cls":mode_classes(&ep, &dflt),"queued":queued}));
+                let q = st.queue.entry(ep).or_default();
                 for b in behs {
                     q.push_back(Beh(b));
                 }
